@@ -55,7 +55,7 @@ class Native:
         self.ensure()
         if not self.bin:
             raise RuntimeError("native driver build failed: " + str(self.build_error))
-        text = "\n".join(k + " " + " ".join(str(int(a)) for a in args) for k, args in calls) + "\n"
+        text = "\n".join(k + " " + " ".join(a if isinstance(a, str) else str(int(a)) for a in args) for k, args in calls) + "\n"
         p = subprocess.run([self.bin], input=text, capture_output=True, text=True, timeout=120)
         lines = [l.strip() for l in p.stdout.split("\n") if l.strip()]
         if len(lines) != len(calls):
@@ -91,6 +91,19 @@ def replay_model(sess, native, r):
     the encoding under the model, then re-evaluate the goal concretely."""
     model = r.get("model") or {}
     calls = []
+    if r.get("replay_native"):
+        # molecule obligations: the counterexample is a byte string; run the real decoder + every accessor on it
+        kind, ty = r["replay_native"]
+        n = int(model.get("len", 0))
+        buf = model.get("buf", {}) if isinstance(model.get("buf"), dict) else {}
+        if n > 192:
+            return {"status": "input-longer-than-extracted-bytes", "calls": []}
+        args = [ty] + [int(buf.get(i, 0)) for i in range(n)]
+        got = native.call(kind, args)
+        calls.append({"key": kind, "args": args, "native": got})
+        if got == "panic":
+            return {"status": "reproduced", "kind": "native: real decoder + accessors panic on these bytes", "calls": calls}
+        return {"status": "not-reproduced-natively", "calls": calls, "note": "verdict differs from the real code on this input"}
     try:
         for reg in r.get("natives", []):
             args = [int(ev(a, model)) for a in reg["args"]]
